@@ -5,6 +5,7 @@ import (
 	"go/ast"
 	"go/token"
 	"go/types"
+	"sort"
 	"strings"
 
 	"golang.org/x/tools/go/ssa"
@@ -127,7 +128,7 @@ func RuleCValue(c *core.Ctx) {
 				if fn == build {
 					return
 				}
-				if core.Outermost(fn) == valuate {
+				if valuationStageFuncs(p, valuate)[fn] {
 					valueStores++
 					c.Ob(rule, fmt.Sprintf("%s:store to Posting.Value", core.FuncName(fn)), st.Pos(), core.FuncName(fn), core.Discharged,
 						"Posting.Value is written by the valuation stage (its symmetry is decided by rule J)")
@@ -436,7 +437,12 @@ func RuleJValuation(c *core.Ctx) {
 		return
 	}
 	n := 0
-	for _, fn := range core.WithAnon(valuate) {
+	var stageFns []*ssa.Function
+	for fn := range valuationStageFuncs(p, valuate) {
+		stageFns = append(stageFns, fn)
+	}
+	sort.Slice(stageFns, func(i, j int) bool { return stageFns[i].String() < stageFns[j].String() })
+	for _, fn := range stageFns {
 		core.EachInstr(fn, func(ins ssa.Instruction) {
 			st, ok := ins.(*ssa.Store)
 			if !ok {
@@ -536,6 +542,29 @@ func RuleCPostings(c *core.Ctx) {
 					}
 				}
 				return ""
+			}
+			// a module helper that returns postings: judge what it returns
+			if callee := x.Call.StaticCallee(); callee != nil && callee.Blocks != nil && p.InModule(callee) && len(seen) < 200 {
+				any := false
+				bad := ""
+				core.EachInstr(callee, func(ins ssa.Instruction) {
+					ret, ok := ins.(*ssa.Return)
+					if !ok || bad != "" {
+						return
+					}
+					for _, rv := range ret.Results {
+						if _, isSlice := rv.Type().Underlying().(*types.Slice); !isSlice {
+							continue
+						}
+						any = true
+						if w := check(rv, seen); w != "" {
+							bad = w
+						}
+					}
+				})
+				if any {
+					return bad
+				}
 			}
 			return "result of " + calleeText(x)
 		case *ssa.Extract:
@@ -642,7 +671,7 @@ func RuleKDayTx(c *core.Ctx) {
 					}}
 					_ = w
 					elemsOK := true
-					set := originSet(p, a, 0)
+					set := originSet(p, a, 2)
 					foundBuild := false
 					for v := range set {
 						if cl, ok := v.(*ssa.Call); ok && cl.Call.StaticCallee() == tbuild {
@@ -904,4 +933,27 @@ func isConstBool(v ssa.Value, want bool) bool {
 		return false
 	}
 	return c.Value.String() == fmt.Sprint(want)
+}
+
+// valuationStageFuncs: the functions that make up the valuation stage — the
+// constructor journal.Valuate, its closures, and the callbacks (closures or
+// methods bound to a state object) of the Processor it returns.
+func valuationStageFuncs(p *core.Prog, valuate *ssa.Function) map[*ssa.Function]bool {
+	res := map[*ssa.Function]bool{}
+	if valuate == nil {
+		return res
+	}
+	for _, fn := range core.WithAnon(valuate) {
+		res[fn] = true
+	}
+	core.EachInstr(valuate, func(ins ssa.Instruction) {
+		if ret, ok := ins.(*ssa.Return); ok && len(ret.Results) == 1 && !core.IsNilConst(ret.Results[0]) {
+			for _, f := range processorLiteral(p, ret.Results[0]) {
+				for _, g := range core.WithAnon(f) {
+					res[g] = true
+				}
+			}
+		}
+	})
+	return res
 }
